@@ -55,6 +55,16 @@ def stepGen (w : World) : Op → World × Out
        | some m => (match Gen.MemIO.MapMemory_Put m a data with | some m' => (mapStore w h m', .ok) | none => (w, .panic))
        | none => (w, .bad))
     | _ => (w, .bad)
+  | .putself r dst src n =>
+    match w.var r with
+    | some (.dm i) =>
+      (match w.slice? i with
+       | some l =>
+         if src + n ≤ l.length then
+           (match Gen.MemIO.DumbMemory_Put l dst ((l.drop src).take n) with | some l' => (w.store i (.slice l'), .ok) | none => (w, .panic))
+         else (w, .bad)
+       | none => (w, .bad))
+    | _ => (w, .bad)
   | .inp r p =>
     match w.var r with
     | some (.dio i) =>
